@@ -14,7 +14,7 @@ Import ListNotations.
 (* T3 for the code as it is (np.concatenate takes the store keys of its first operand): for EVERY format
    descriptor, register file satisfying the invariant, header and program of any length, if the executable guard
    holds along the run — every concatenate has operands with equal replaced-key sets and cached keys of the first
-   present in all, no lazy/materialised mixture, no replaced column the writer cannot format, modified SAM rows have tags, no SequenceID parse
+   present in all, no lazy/materialised mixture, no replaced column the writer cannot format, no SequenceID parse
    of an empty buffer, replacement columns of the table's length — then every step of the lazy run observes what
    the eager run observes (values always; written bytes too when the records are canonically spelled). *)
 Theorem C05_refines_partial :
@@ -52,8 +52,7 @@ Print Assumptions C05_chunked_init.
 
 (* T4: writing — a lazy table whose records are canonically spelled writes exactly what the eager table writes,
    whether nothing was replaced (raw bytes passed through) or some columns were (re-joined field texts);
-   join_ok: the buffer class joins every written row like the eager writer (false only for a SAM row with an
-   empty tags field, see C05_sam_empty_tags_refuted) *)
+   join_ok: the buffer class joins every written row like the eager writer (always true since 81bde1f) *)
 Theorem C05_write :
   forall F hdr l b,
     InvL F l -> canonL F l -> join_ok F l = true ->
@@ -120,14 +119,6 @@ Theorem C05_empty_sid_refuted :
     <> map erase (s_run F hdr [rows_of_file F recs; rows_of_file F recs] prog).
 Proof. exact empty_sid_refuted. Qed.
 Print Assumptions C05_empty_sid_refuted.
-
-(* SAMBuffer.join_fields (36989fd) writes no tab before an empty tags field, the eager writer does: on the
-   canonically spelled record "a\t\n", replace + write differs *)
-Theorem C05_sam_empty_tags_refuted :
-  exists F hdr recs prog, wf F recs /\
-    m_run l_concat F hdr (start recs) prog <> s_run F hdr [rows_of_file F recs; rows_of_file F recs] prog.
-Proof. exact sam_empty_tags_refuted. Qed.
-Print Assumptions C05_sam_empty_tags_refuted.
 
 (* why written bytes are only claimed on canonically spelled files: "c\t01\t2\n" is passed through by the lazy
    writer and re-printed as "c\t1\t2\n" by the eager one, although the guard holds *)
